@@ -70,6 +70,58 @@ def restrictF : Nat → Store → Nat → Nat → Bool → Store × Nat
         let r := if b then restrictF fuel s n.hi v b else restrictF fuel s n.lo v b
         ({ r.1 with resC := r.1.resC.insert (t, v, b) r.2 }, r.2)
 
+/-- insertion into the restrict memo of a store that is taken apart first (in place when compiled) -/
+def Store.insRes (s : Store) (k : Nat × Nat × Bool) (r : Nat) : Store :=
+  match s with
+  | ⟨nodes, uniq, resC, iteC⟩ => ⟨nodes, uniq, resC.insert k r, iteC⟩
+
+theorem Store.insRes_eq (s : Store) (k : Nat × Nat × Bool) (r : Nat) :
+    s.insRes k r = { s with resC := s.resC.insert k r } := rfl
+
+/-- `restrictF` with every intermediate pair taken apart at once, so that the compiled code holds a
+single reference to the store (`@[csimp]`-substituted; theorems speak about `restrictF`) -/
+def restrictL : Nat → Store → Nat → Nat → Bool → Store × Nat
+  | 0, s, t, _, _ => (s, t)
+  | fuel+1, s, t, v, b =>
+    match s.resC[(t, v, b)]? with
+    | some r => (s, r)
+    | none =>
+    match s.nodes[t]? with
+    | none => (s, t)
+    | some n =>
+      if n.var > v ∨ n.var ≥ VBOT then (s, t)
+      else if n.var < v then
+        match restrictL fuel s n.lo v b with
+        | (s1, a1) =>
+        match restrictL fuel s1 n.hi v b with
+        | (s2, a2) =>
+        match mkNodeL s2 n.var a1 a2 with
+        | (s3, r) => (s3.insRes (t, v, b) r, r)
+      else
+        match (if b then restrictL fuel s n.hi v b else restrictL fuel s n.lo v b) with
+        | (s1, r) => (s1.insRes (t, v, b) r, r)
+
+theorem restrictF_eq_restrictL : ∀ (fuel : Nat) (s : Store) (t v : Nat) (b : Bool),
+    restrictF fuel s t v b = restrictL fuel s t v b := by
+  intro fuel
+  induction fuel with
+  | zero => intros; rfl
+  | succ f ih =>
+    intro s t v b
+    unfold restrictF restrictL
+    split
+    · rfl
+    · split
+      · rfl
+      · split
+        · rfl
+        · split
+          · simp only [ih, mkNode_eq_mkNodeL, Store.insRes_eq]
+          · cases b <;> simp only [ih, Store.insRes_eq, if_true, if_false, Bool.false_eq_true]
+
+@[csimp] theorem restrictF_eq_restrictL' : @restrictF = @restrictL := by
+  funext fuel s t v b; exact restrictF_eq_restrictL fuel s t v b
+
 theorem eval_upd_of_lt (s : Store) (w : WF s) (t : Nat) (ht : t < s.nodes.size) (v : Nat) (b : Bool)
     (hv : v < topVar s t) (σ : Asg) : eval s t (upd σ v b) = eval s t σ := by
   obtain ⟨n, hn⟩ := get_of_lt ht
